@@ -12,22 +12,13 @@ structure SearchCfgM where
   /-- the game searched (leaf evaluation): material unless stated otherwise -/
   game : ZTable → Game World := materialGame
 
-/-- order-embedding key of a float32 given by the rational it denotes (`Flt.bits32`: sign-magnitude, negated for negatives) -/
-def f32keyOfQ (q : Flt.Q) : Int :=
-  match Flt.bits32 q with
-  | some b => if b ≥ 2147483648 then -((b - 2147483648 : Nat) : Int) else (b : Int)
-  | none => 0
-
-/-- BERNSTEIN's evaluation (factor 8, as the harness wires it) as a leaf key; a position without a king (where Go panics) is not searched by the stream -/
-def bernsteinKey (pos : Position) (turn : Color) : Int :=
-  match Bernstein.evalEvaluate pos 8 turn with
-  | some q => f32keyOfQ q
-  | none => 0
+/-- BERNSTEIN's evaluation (factor 8, as the harness wires it) as a leaf key -/
+def bernsteinKey (pos : Position) (turn : Color) : Int := bernsteinKeyF 8 pos turn
 
 def capturesOnly : Explore := { prio := mvvlva, pick := fun m => m.isCapture }
 def noUnderPromo : Explore := { prio := mvvlva, pick := fun m => !m.isUnderPromotion }
 
-def cfgModel (name : String) : Option SearchCfgM :=
+def cfgModel (zt : ZTable) (name : String) : Option SearchCfgM :=
   match name with
   | "full-static" => some { ex := constEx fullExploration, le := .static }
   | "full-quiet" => some { ex := constEx fullExploration, le := .quiescence (constEx capturesOnly) 64 }
@@ -35,6 +26,9 @@ def cfgModel (name : String) : Option SearchCfgM :=
   | "nup-quiet" => some { ex := constEx noUnderPromo, le := .quiescence (constEx capturesOnly) 64 }
   -- the search the BERNSTEIN engine runs: plausible-move table (limit 7) at every node, its own evaluation at the leaves
   | "bern-static" => some { ex := bernsteinExplore 7, le := .static, game := fun z => boardGame z bernsteinKey }
+  -- the search the TUROCHAMP engine runs: full exploration, quiescence over the considerable moves (the predicate sees the
+  -- board after the move), its own evaluation (position, side, castled flags) at the leaves
+  | "turo-quiet" => some { ex := constEx fullExploration, le := turochampLeaf zt 64, game := fun z => boardGameW z turochampKey }
   | _ => none
 
 def specIsCapture (p : Spec.Pos) (m : Spec.SMove) : Bool := p.occ m.to   -- en passant is not a `Capture` type move
@@ -48,6 +42,7 @@ def cfgSpec (name : String) : Option Spec.SearchCfg :=
   | "nup-static" => some ⟨specNotUnderPromo, none, leaf⟩
   | "nup-quiet" => some ⟨specNotUnderPromo, some specIsCapture, leaf⟩
   | "bern-static" => some ⟨fun _ _ => true, none, leaf⟩   -- no reference for this configuration: always run as `bern-static~`
+  | "turo-quiet" => some ⟨fun _ _ => true, none, leaf⟩    -- likewise: `turo-quiet~`
   | _ => none
 
 def pvStr (pv : List Move) : String := if pv.isEmpty then "-" else String.intercalate "," (pv.map moveUci)
@@ -133,9 +128,12 @@ def searchOp (st : DriverState) (args : List String) : String :=
   | seed :: cfg :: ttSize :: minDepth :: rest =>
     let noSpec := cfg.endsWith "~"
     let cfg := if noSpec then (cfg.dropEnd 1).toString else cfg
-    match st.ztables.find? (fun e => e.1 == seed), cfgModel cfg, cfgSpec cfg, ttSize.toNat?, minDepth.toNat? with
-    | some (_, za), some cm, some cs, some tts, some md =>
+    match st.ztables.find? (fun e => e.1 == seed), cfgSpec cfg, ttSize.toNat?, minDepth.toNat? with
+    | some (_, za), some cs, some tts, some md =>
       let z := za.table
+      match cfgModel z cfg with
+      | none => "bad-op"
+      | some cm =>
       let fenToks := rest.takeWhile (· ≠ ";")
       let items := (rest.dropWhile (· ≠ ";")).drop 1
       let f := joinSp fenToks
@@ -150,7 +148,7 @@ def searchOp (st : DriverState) (args : List String) : String :=
         if noSpec then String.intercalate " | " ms
         else String.intercalate " | " ms ++ " ## " ++ String.intercalate " | " ss
       | _, _ => "err"
-    | _, _, _, _, _ => "bad-op"
+    | _, _, _, _ => "bad-op"
   | _ => "bad-op"
 
 end Morlock.Driver
